@@ -443,6 +443,21 @@ func (x *bctx) v1ProofOf(e types.FileContractElement) bool {
 			sp.Proof = append(sp.Proof, types.Hash256(h))
 		}
 	}
+	// several proofs may share one transaction (no signature covers an input-less proof transaction): joined to the
+	// previous proof-only transaction of the block, in front of or behind its proofs
+	if k := len(x.v1); k > 0 && x.rng.IntN(2) == 0 {
+		last := &x.v1[k-1]
+		if len(last.StorageProofs) > 0 && len(last.StorageProofs) < 4 && len(last.SiacoinInputs) == 0 && len(last.Signatures) == 0 && len(last.MinerFees) == 0 {
+			if x.rng.IntN(2) == 0 {
+				last.StorageProofs = append(last.StorageProofs, sp)
+			} else {
+				last.StorageProofs = append([]types.StorageProof{sp}, last.StorageProofs...)
+			}
+			x.kinds = append(x.kinds, "v1-proofs-sharing-a-txn")
+			x.fcTouched[e.ID] = "resolved"
+			return true
+		}
+	}
 	txn := types.Transaction{StorageProofs: []types.StorageProof{sp}}
 	// a storage-proof transaction may not have outputs; fees only
 	if x.rng.IntN(2) == 0 {
